@@ -74,6 +74,10 @@ func c11RunLevel(e *env) {
 			slowPath := fmt.Sprintf("/slow-run-%d", i)
 			env.slow.Store(slowPath, slow)
 			env.slow.Store("http://origin.test"+slowPath, slow)
+			bigPath := fmt.Sprintf("/big-run-%d", i)
+			env.slow.Store(bigPath, slow)
+			env.slow.Store("http://origin.test"+bigPath, slow)
+			pipelinedDone := make(chan error, 1)
 			phases := c15Phases[c.Stacking]
 			idxOf := func(ph string) int {
 				for k, p := range phases {
@@ -104,6 +108,8 @@ func c11RunLevel(e *env) {
 					w = env.walk(c.Stacking, len(phases), false, fmt.Sprintf("/ok-run-%d", i), 0)
 				case "inflight":
 					w = env.walk(c.Stacking, idxOf("rt"), false, slowPath, 0)
+				case "pipelined":
+					w = env.walk(c.Stacking, idxOf("rt"), false, bigPath, 0)
 				}
 				if w.err != nil {
 					fail(k + " client could not reach its phase: " + w.err.Error())
@@ -112,6 +118,37 @@ func c11RunLevel(e *env) {
 					return
 				}
 				clis = append(clis, cli{k, w})
+				if k == "pipelined" {
+					go func() {
+						// the shutdown begins 60 ms from now; the next request goes out while the first is still with the origin
+						time.Sleep(250 * time.Millisecond)
+						req := "GET http://origin.test/next HTTP/1.1\r\nHost: origin.test\r\n\r\n"
+						if c.Stacking == "tls" || c.Stacking == "pptls" {
+							req = "GET http://origin.test/next HTTP/1.1\r\nHost: origin.test\r\n\r\n"
+						}
+						w.conn.Write([]byte(req))
+						// the reply under way is read at a moderate pace
+						w.conn.SetReadDeadline(time.Now().Add(20 * time.Second))
+						r, err := readWireResponseHeadOnly(w.br)
+						if err != nil || r.Status != 200 {
+							pipelinedDone <- fmt.Errorf("head: %v", err)
+							return
+						}
+						got, buf := 0, make([]byte, 32<<10)
+						for got < c11BigBody {
+							n, err := w.br.Read(buf)
+							got += n
+							if err != nil {
+								pipelinedDone <- fmt.Errorf("%d of %d body bytes, then %v", got, c11BigBody, err)
+								return
+							}
+							if got%(1<<20) < len(buf) {
+								time.Sleep(time.Millisecond)
+							}
+						}
+						pipelinedDone <- nil
+					}()
+				}
 				if k == "inflight" {
 					go func() {
 						w.conn.SetReadDeadline(time.Now().Add(8 * time.Second))
@@ -138,6 +175,16 @@ func c11RunLevel(e *env) {
 				fail(fmt.Sprintf("Run had not returned %v after its context was cancelled", took))
 			}
 			for _, cl := range clis {
+				if cl.kind == "pipelined" {
+					select {
+					case err := <-pipelinedDone:
+						if err != nil {
+							fail("the answer under way when the shutdown began (its client had sent another request meanwhile) was not delivered in full: " + err.Error())
+						}
+					case <-time.After(25 * time.Second):
+						fail("the answer under way when the shutdown began was never completed")
+					}
+				}
 				if cl.kind == "inflight" {
 					select {
 					case err := <-inflightDone:
